@@ -657,6 +657,7 @@ type File struct {
 type LemmaDef struct {
 	Name   string
 	Params []Param
+	Using  []string // previously proved lemmas available (universally quantified) in the proof
 	Induct string // parameter name ("" = direct proof)
 	From   Expr   // lower bound of the induction variable
 	Body   Expr
@@ -1093,6 +1094,14 @@ func parseLemmaDef(rest, path string, line int) (*LemmaDef, bool, error) {
 	}
 	head, body := src[:eq], src[eq+3:]
 	ld := &LemmaDef{Props: props, Src: src, File: path, Line: line}
+	if k := strings.Index(head, " using "); k >= 0 {
+		for _, n := range strings.Split(head[k+len(" using "):], ",") {
+			if n = strings.TrimSpace(n); n != "" {
+				ld.Using = append(ld.Using, n)
+			}
+		}
+		head = head[:k]
+	}
 	if k := strings.Index(head, " induction "); k >= 0 {
 		ind := strings.Fields(head[k+len(" induction "):])
 		head = head[:k]
